@@ -193,6 +193,40 @@ def config(style, first, npos, nd, nkw, kwmask, has_kw, docmask, perm, active):
         return ir.get("type") == want_type and ir.get("name") == "f"
 
 
+def cls_config_idx(style, c, active):
+    """class K merged with an __init__ whose whole configuration (positional / keyword-only / **kw, defaults, documented subset and
+    order) is table entry c of the quick table - including an __init__ whose parameters after self are ALL keyword-only"""
+    c = realize(c)
+    with untraced():
+        npos, nd, nkw, kwmask, has_kw, docmask, perm = CONFIGS["quick"][c]
+        names = list(POS[:npos]) + list(KWO[:nkw]) + (["kw"] if has_kw else [])
+        documented = _documented(names, docmask, perm)
+        if style == 0 and "kw" in documented:
+            return True  # ReST carries no type for kw: KF-C07-kwarg-untyped-assert region, exercised by config_*
+        init = mk_fn(npos, nd, nkw, kwmask, bool(has_kw), 1, 0, [], (11, 12, 13, 21, 22), name="__init__")
+        init.body = [ast.Pass()]
+        cd = ast.ClassDef(name="K", bases=[], keywords=[], decorator_list=[], type_params=[], lineno=1, col_offset=0,
+                          body=[ast.Expr(value=ast.Constant(value=mk_doc(style, documented).replace(":param", ":cvar"), kind=None)), init])
+        ir = parse.class_(cd, merge_inner_function="__init__")
+        m = model(init)
+        got = list(ir["params"].keys())
+        if has_kw and "kw" not in documented and "KF-C07-kwarg-dropped" in active:
+            m = [x for x in m if x[0] != "kw"]
+        if sorted(got) != sorted(x[0] for x in m):
+            return False
+        names_m = [x[0] for x in m]
+        known = [n for n in documented if n in names_m] + [n for n in names_m if n not in documented]
+        if got != names_m and not ("KF-C07-doc-order" in active and got == known):
+            return False
+        for n, dflt, ann, kind in m:
+            e = ir["params"][n]
+            if dflt is not _EMPTY and not ("default" in e and e["default"] == dflt and type(e["default"]) is type(dflt)):
+                return False
+            if n in documented and e.get("doc") != PROSE[n]:
+                return False
+        return True
+
+
 def values(style, first, nd, kwmask, documented, active, d0, d1, d2, d3):
     """(S): fixed shape a,b,c / k,m ; the default values are symbolic ints"""
     fd = mk_fn(3, nd, 2, kwmask, False, first, style, list(documented), (d0, d1, d2, d3, d3))
@@ -349,6 +383,14 @@ def obligations(tier, seed):
                    replay=lambda cex: (seed_sweep(12)["status"] == "violated", "re-ran the sweep"),
                    bounds="'independent of any run-to-run variation': the whole quick configuration table x 3 styles converted in sub-processes "
                    "under PYTHONHASHSEED 0..%d and random; one digest" % (7 if tier == "quick" else 31)))
+    for style in range(3):
+        if tier == "quick" and style == 1:
+            continue
+        obs.append(Ob(name="class_init_config_s%d" % style, params=[("c", "int")], pre=["0 <= c < %d" % len(CONFIGS["quick"])],
+                      body="H.cls_config_idx(%d, c, {ACTIVE})" % style, witness=(CONFIGS["quick"].index((2, 1, 1, 1, 0, 7, 0)),), kind="F",
+                      bounds="class K merged with __init__: every configuration vector of the quick table (%d: <= 2 positional, <= 1 keyword-only, "
+                      "**kw yes/no, every documented subset, 2 orders), docstring style %d" % (len(CONFIGS["quick"]), style),
+                      timeout=280 if tier == "quick" else 900, path_timeout=100, funcs=FUNCS))
     obs.append(Ob(name="class_init_merge_kwargs", params=[("style", "int"), ("npos", "int"), ("docmask", "int"), ("dk", "int")],
                   pre=["1 <= style <= 2", "1 <= npos <= 3", "0 <= docmask < 2 ** npos", "0 <= dk <= 1"],
                   body="H.cls_merge(style, npos, 0, docmask, {ACTIVE}, has_kw=1, doc_kw=dk)", witness=(1, 2, 1, 1), kind="F",
